@@ -60,6 +60,9 @@ class EscapeOfHEProducts(ExactSolver):
         if self.rho_0 <= 0:
             raise ValueError('Initial density must be > 0')
 
+        if self.gamma != 3.0:
+            raise ValueError('Adiabatic index gamma must be 3.0')
+
         if self.up < 0:
             raise ValueError('Piston velocity must be >= 0')
         if self.up >= self.D/(self.gamma+1):
